@@ -16,6 +16,7 @@ inductive TVal where
   | n (v : Nat)
   | s (text : Bytes)
   | ss (strs : List Bytes)
+  | nl (codes : List Nat)
 deriving Repr, DecidableEq
 
 /-! ### printing -/
@@ -167,6 +168,48 @@ def parseIPv4 (s : Bytes) : Option Bytes :=
     | _ => none
   | _ => none
 
+/-! ### type and class mnemonics (defaults.go `Type.String`, `Class.String`) -/
+
+/-- `Type(n).String()`: `TypeToString[n]`, else `"TYPE" + strconv.Itoa(n)` -/
+def printType (n : Nat) : Bytes :=
+  match Gen.stringToType.find? (fun p => p.2 == n) with
+  | some p =>
+    -- only a mnemonic that the lexer, which looks tokens up in upper case, reads back as this type
+    if lookup Gen.stringToType (goUpper (ascii p.1)) == some n then ascii p.1 else ascii "TYPE" ++ itoa n
+  | none => ascii "TYPE" ++ itoa n
+
+/-- `Class(n).String()` -/
+def printClass (n : Nat) : Bytes :=
+  match Gen.stringToClass.find? (fun p => p.2 == n) with
+  | some p =>
+    -- only a mnemonic that is not also the name of a type (`ANY` is both)
+    if lookup Gen.stringToType (ascii p.1) == none then ascii p.1 else ascii "CLASS" ++ itoa n
+  | none => ascii "CLASS" ++ itoa n
+
+/-- a type mnemonic inside RDATA (the loops of `(*NSEC).parse`, `(*CSYNC).parse`): `StringToType[strings.ToUpper(token)]`,
+    else `typeToInt(token)` -/
+def rdType (tok : Bytes) : Option Nat :=
+  match lookup Gen.stringToType (goUpper tok) with
+  | some k => some k
+  | none => numericCode 4 tok
+
+/-- `" " + Type(t).String()` for every type of the list -/
+def typesText (ts : List Nat) : Bytes := (ts.map (fun t => 32 :: printType t)).flatten
+
+/-- the type-bitmap loop: tokens up to the end of the entry; blanks are skipped, a string must name a type, anything
+    else is an error (a lexer error too: ZoneParser.Next tests the lexer's error flag behind the type's parser) -/
+def typeListParse : List Tok → List Nat → Option (List Nat)
+  | [], acc => some acc
+  | t :: ts, acc =>
+    if t.err then none
+    else if t.value = zNewline ∨ t.value = zEOF then some acc
+    else if t.value = zBlank then typeListParse ts acc
+    else if t.value = zString then
+      match rdType t.token with
+      | some k => typeListParse ts (acc ++ [k])
+      | none => none
+    else none
+
 /-- one leaf of a `String()` expression -/
 def printStep : TStep → List TVal → Option (Bytes × List TVal)
   | .uint _, .n v :: vs => some (itoa v, vs)
@@ -175,6 +218,7 @@ def printStep : TStep → List TVal → Option (Bytes × List TVal)
   | .txt, .ss strs :: vs => some (sprintTxt strs, vs)
   | .txtPair, .s a :: .s b :: vs => some (sprintTxt [a, b], vs)
   | .txtFirst, .s a :: vs => some (sprintTxt [a], vs)
+  | .typeList, .nl ts :: vs => some (typesText ts, vs)
   | .ipv4, .s a :: vs => if a.length = 4 then some (printIPv4 a, vs) else none
   | .salt, .s t :: vs => some (if t.isEmpty then [45] else upperAscii t, vs)
   | .hexGroups d g sep up, .n v :: vs => some (printHexGroups d g sep up v, vs)
@@ -272,6 +316,11 @@ def parsePlan (origin : Bytes) : List TStep → List Tok → List TVal → Optio
     match parseUintN bits l.token with
     | some v => if l.err then none else parsePlan origin rest ts.tail (acc ++ [.n v])
     | none => none
+  | .uintLax bits :: rest, ts, acc =>
+    let l := headTok ts
+    match parseUintN bits l.token with
+    | some v => parsePlan origin rest ts.tail (acc ++ [.n v])
+    | none => none
   | .uintAlg :: rest, ts, acc =>
     let l := headTok ts
     match parseUintN 8 l.token with
@@ -304,6 +353,7 @@ def parsePlan (origin : Bytes) : List TStep → List Tok → List TVal → Optio
   | .txtPair :: _, ts, acc => (TxtParse.endingToTxtSlice ts).map (fun ss => acc ++ [.s (pairOfChunks ss).1, .s (pairOfChunks ss).2])
   | .txtFirst :: _, ts, acc => (TxtParse.endingToTxtSlice ts).map (fun ss => acc ++ [.s (ss.headD [])])
   | .octet :: _, ts, acc => (endingToOctet ts).map (fun s => acc ++ [.s s])
+  | .typeList :: _, ts, acc => (typeListParse ts []).map (fun ks => acc ++ [.nl ks])
   | .ipv4 :: rest, ts, acc =>
     let l := headTok ts
     if l.err ∨ l.token.contains 58 then none
@@ -332,23 +382,5 @@ def parsePlan (origin : Bytes) : List TStep → List Tok → List TVal → Optio
   | .slurp :: _, ts, acc => if slurpRemainder ts then some acc else none
   | .other :: _, _, _ => none
   | .hexGroups _ _ _ _ :: _, _, _ => none      -- a printer's step
-
-/-! ### type and class mnemonics (defaults.go `Type.String`, `Class.String`) -/
-
-/-- `Type(n).String()`: `TypeToString[n]`, else `"TYPE" + strconv.Itoa(n)` -/
-def printType (n : Nat) : Bytes :=
-  match Gen.stringToType.find? (fun p => p.2 == n) with
-  | some p =>
-    -- only a mnemonic that the lexer, which looks tokens up in upper case, reads back as this type
-    if lookup Gen.stringToType (goUpper (ascii p.1)) == some n then ascii p.1 else ascii "TYPE" ++ itoa n
-  | none => ascii "TYPE" ++ itoa n
-
-/-- `Class(n).String()` -/
-def printClass (n : Nat) : Bytes :=
-  match Gen.stringToClass.find? (fun p => p.2 == n) with
-  | some p =>
-    -- only a mnemonic that is not also the name of a type (`ANY` is both)
-    if lookup Gen.stringToType (ascii p.1) == none then ascii p.1 else ascii "CLASS" ++ itoa n
-  | none => ascii "CLASS" ++ itoa n
 
 end Dns.TextCodec
